@@ -273,7 +273,9 @@ def generate(seed: int, config: str, tier: str) -> Dict[str, Any]:
             faults["storeerr"].append([p, k, frng.choice(["store", "key", "index", "type", "value"])])
     plan = {"kind": kind, "docs": docs, "wraps": wraps, "ctxs": ctxs, "queries": queries, "envs": envs, "clients": clients, "faults": faults,
             "foreign": foreign}
-    knobs = {"p_sched": rng.choice([0.3, 0.5, 0.7]), "p_get": rng.choice([0.3, 0.6]), "p_quantum": rng.choice([0.5, 0.8, 0.95])}
+    knobs = {"p_sched": rng.choice([0.3, 0.5, 0.7]), "p_get": rng.choice([0.3, 0.6]), "p_quantum": rng.choice([0.5, 0.8, 0.95]),
+             # regex-heavy thread runs aim their pre-emptions at the function-extension instances all evaluations share
+             "focus": "function_extensions" if (regex_heavy and kind == "threads") else None}
     return {"property": PROPERTY, "config": config, "seed": seed, "knobs": knobs, "plan": plan}
 
 
@@ -1156,7 +1158,8 @@ def _run_threads(spec: Dict[str, Any], ctx: Ctx) -> None:
                 ctx.nontrivial = True
                 ctx.count("probe.preempt_same_file_two_threads")
 
-    sched = ThreadSched(ctx.choose, trace_dir, on_switch=on_switch, p_quantum=float(knobs.get("p_quantum", 0.8)))
+    sched = ThreadSched(ctx.choose, trace_dir, on_switch=on_switch, p_quantum=float(knobs.get("p_quantum", 0.8)),
+                        focus=knobs.get("focus") or None)
 
     def make(cid: int) -> Any:
         def body() -> None:
@@ -1188,6 +1191,8 @@ def _run_threads(spec: Dict[str, Any], ctx: Ctx) -> None:
     ctx.count("thread_switches", sched.switches)
     ctx.count("traced_lines", sched.steps)
     ctx.count("lock_waits", sched.lock_waits)
+    if sched.focus_cuts:
+        ctx.count("probe.preemption_aimed_at_function_extension", sched.focus_cuts)
     for e in errors:
         if isinstance(e, Violation):
             raise e
